@@ -493,7 +493,8 @@ def apply_op(ctx, st, op, prop):
             idx, k, own = op["recs"], op["s"], op["own"]
         spec = current_spec(st, k)
         if own:
-            records = [st.recs[i] for i in idx]
+            # a repeat hands in the very list object of the earlier call (the caller kept it)
+            records = prev["list"] if prev is not None and prev.get("list") is not None else [st.recs[i] for i in idx]
             settings = st.sets[k]
         else:
             records = [copy.deepcopy(st.recs[i]) for i in idx]
@@ -509,11 +510,16 @@ def apply_op(ctx, st, op, prop):
         ctx.state_changes += 1
         if ctx.wants("C09") and own:
             frame_records(ctx, st, before, f"process({spec['cls']})", {"cls": spec["cls"], "exit": "raise" if exc else "normal"})
+            # the container the caller handed in is an input too: same recordings, same positions
+            ctx.check(len(records) == len(idx) and all(r is st.recs[i] for r, i in zip(records, idx)), "recording_list_changed",
+                      lambda: f"process({spec['cls']}) re-arranged the {type(records).__name__} of recordings it was given "
+                              f"(time steps now {[r.ns.dt_in_seconds for r in records]})", key={"cls": spec["cls"]})
         if ctx.wants("C03") and not own:
             # references are computed from the pristine pool objects, never from the
             # copies handed to process() (which the call may have altered: C09's business)
             oracle_c03(ctx, st, op, [st.recs[i] for i in idx], settings, spec, res, exc)
         call = {"recs": list(idx), "s": k, "own": own, "exc": exc, "tag": op.get("tag") if name == "process" else None,
+                "list": records if own and isinstance(records, list) else None,
                 "rec_versions": [st.rec_version[i] for i in idx], "set_version": st.set_version[k],
                 "result": res, "snap": semantic_snap(res) if res is not None else None}
         if ctx.wants("C09") and own and res is not None:
